@@ -50,7 +50,9 @@ from .oracle import brief, tensor_bytes
 
 SCRATCH_ROOT = "/var/tmp/c13"
 
-COHORTS = {"A": ["a", "b", "c"], "B": ["d", "e"], "C": ["e"]}  # C: a single individual (personalization only)
+# A, D: three individuals (fits and personalizations); B: two, C: one individual (personalizations only: 3-iteration
+# fits of 2 individuals let xi_std collapse for some seeds, which leaspy refuses with LeaspyConvergenceError)
+COHORTS = {"A": ["a", "b", "c"], "B": ["d", "e"], "C": ["e"], "D": ["d", "e", "b"]}
 PERSONALIZE_KW = {
     "scipy_minimize": {},
     # burn-in left to its default fraction: the algorithm then completes *its own copy* of the settings' parameters
